@@ -6,8 +6,9 @@ very source") is what makes a fresh id differ from all ids in use.  Here: the al
 `onaccept_udp` — `udp_by_src` lookup / `next_channel` + `mux.channels[chan] = …`, then
 `udp_by_src[srcip] = chan, timeout` — preserves it, for a new source and for a known one alike.
 The `expire_connections` half preserves it too (`C11_tables_in_chans_after_expire`), given that DNS ids
-carry DNS callbacks (`DnsInChans`) and `udp_by_src` has one entry per source (`SrcUnique`); that these
-two are themselves invariants of every step is not yet proved.  Core Lean only.
+carry DNS callbacks (`DnsInChans`) and `udp_by_src` has one entry per source (`SrcUnique`); `SrcUnique` follows from
+`SrcNodup`, which both halves of `onaccept_udp` preserve (`C11_src_nodup_after_alloc/_expire`); that
+`DnsInChans` is an invariant of every step is not yet proved.  Core Lean only.
 -/
 import SshuttleModel.Props.C11
 import SshuttleModel.Lemmas.DgramExpire
@@ -112,6 +113,30 @@ theorem C11_tables_in_chans_after_expire (now : Nat) (c c' : Client) (fr : List 
         have := hu p hp q hq hq'.2
         subst this
         exact hlive hexp
+
+/-- `udp_by_src` has no two entries for one source (it is a dict). -/
+def SrcNodup (c : Client) : Prop := (c.udpBySrc.map (·.1)).Nodup
+
+theorem C11_src_nodup_unique (c : Client) (h : SrcNodup c) : SrcUnique c :=
+  unique_of_keys_nodup _ h
+
+/-- … and both halves of `onaccept_udp` keep it so: the table update … -/
+theorem C11_src_nodup_after_alloc (cfg : Cfg) (lsn : Nat) (src : Addr) (c c1 : Client)
+    (r : Option (Nat × List Frame)) (v : Nat × Nat) (hn : SrcNodup c)
+    (h : udpAlloc cfg lsn src c = (c1, r)) :
+    SrcNodup { c1 with udpBySrc := set src v c1.udpBySrc } := by
+  obtain ⟨_, _, e3, _⟩ := udpAlloc_ok h
+  unfold SrcNodup
+  simp only [e3]
+  exact keys_set_nodup _ _ _ hn
+
+/-- … and the sweep. -/
+theorem C11_src_nodup_after_expire (now : Nat) (c c' : Client) (fr : List Frame) (hn : SrcNodup c)
+    (h : expire now c = .ok (c', fr)) : SrcNodup c' := by
+  obtain ⟨_, _, _, _, e5, _⟩ := expire_ok h
+  unfold SrcNodup
+  rw [e5]
+  exact hn.sublist ((List.filter_sublist).map _)
 
 /-- Non-vacuity: the empty client satisfies the invariant and an allocation succeeds on it. -/
 example : TablesInChans ({} : Client) ∧ DnsInChans ({} : Client) ∧ SrcUnique ({} : Client) := by
